@@ -6,6 +6,8 @@ source).  Clause 4 (reader output accepted) is not a theorem here; see harness/c
 import NumbersModel.Lemmas.Tokenizer
 import NumbersModel.Lemmas.TokenizerQuotes
 import NumbersModel.Model.TokenizerCfg
+import NumbersModel.Lemmas.FormulaAccept
+import NumbersModel.Props.C08
 namespace NumbersModel.Props.C18
 open NumbersModel NumbersModel.Tokenizer
 
@@ -62,6 +64,26 @@ theorem dq_literal_wellformed (s : Text) (n : Nat) (h : dqMatch s = some n) : DQ
 theorem sq_literal_wellformed (s : Text) (n : Nat) (h : sqMatch Gen.whitespace s = some n) :
     SQLit Gen.whitespace (s.take n) := sqMatch_wf h
 
+/-- (4a) every text of the formula grammar `G` — operands that are plain texts or string literals,
+    the twelve binary operators, unary minus, `%`, parenthesised / function-call argument lists
+    with `,` or `;` separators and empty arguments, `{…}` — is accepted: tokenizing it succeeds. -/
+theorem grammar_accepted (t : Text) (h : G true t) : ∃ toks, tokenize liveCfg t = .ok toks :=
+  tokenize_accepts h
+
+/-- (4b) PARTIAL — every formula text the reader produces for a well-formed stored expression
+    (C08's `exec_compile`: what `Cell.formula` returns is `render e`) is accepted by the tokenizer,
+    for expressions that are `TokSafe`: every constructor except array literals, with operand and
+    function-name texts that are plain (a reference that needs quoting — a header name with
+    operator characters, behind a table prefix, or with an apostrophe — is outside; the first two
+    are exercised by the correspondence, the third is a recorded finding).
+    Full statement (not proved): the same for every well-formed expression and every reference text
+    the reader can print. -/
+theorem reader_output_accepted_partial (e : Formula.Expr) (hw : Formula.WellFormed e = true)
+    (hs : FormulaAccept.TokSafe e = true) :
+    ∃ text toks, Formula.formulaText (Formula.compile e) = .ok text ∧ tokenize liveCfg text = .ok toks := by
+  obtain ⟨toks, ht⟩ := tokenize_accepts (FormulaAccept.render_G e hs)
+  exact ⟨Formula.render e, toks, C08.exec_compile_top e hw, ht⟩
+
 /-! ### the defect of the pinned commit, as a theorem about its model -/
 example : tokenize pinnedCfg ")".toList = .error .IndexError := by decide
 example : tokenize liveCfg ")".toList = .error .TokenizerError := by decide
@@ -74,6 +96,12 @@ example : (tokenize liveCfg "Data::'a-b':'a-b'+1".toList).toOption.map (·.map (
     some ["Data::'a-b':'a-b'".toList, "+".toList, "1".toList] := by decide +kernel
 
 /-! ### non-vacuity -/
+example : FormulaAccept.TokSafe
+    (.bin .add (.bin .mul (.paren [.ref "A1:B2".toList, .empty, .num (.int 3)]) (.neg (.ref "$C$4".toList)))
+      (.pct (.str "a\"b".toList))) = true := by decide
+example : Formula.render
+    (.bin .add (.bin .mul (.paren [.ref "A1:B2".toList, .empty, .num (.int 3)]) (.neg (.ref "$C$4".toList)))
+      (.pct (.str "a\"b".toList))) = "(A1:B2,,3)×-$C$4+\"a\"\"b\"%".toList := by decide
 example : (tokenize liveCfg "SUM(A1:B2)×3+\"a\"\"b\"".toList).toOption.map (·.map (·.value)) =
     some ["SUM(".toList, "A1:B2".toList, ")".toList, "×".toList, "3".toList, "+".toList, "\"a\"\"b\"".toList] := by
   decide +kernel
